@@ -1,3 +1,7 @@
 import Proofs.Hyperslab
 import Proofs.Slice
 import Proofs.SliceTuple
+import Proofs.XdrBasic
+import Proofs.XdrDec
+import Proofs.XdrEnc
+import Proofs.XdrSize
